@@ -251,7 +251,8 @@ class Ctx:
 def finish(prop, ctx, rules, level_text, not_decided, assumptions, extra=None):
     """Write evidence, print KNOWN-FINDING / VIOLATION lines, return exit status."""
     known = load_known()
-    ev_dir = os.path.join(VERIF, "evidence")
+    # evidence describes runs against /repo itself; a selftest run on a scratch copy keeps its files inside that copy
+    ev_dir = os.path.join(VERIF, "evidence") if os.path.realpath(ctx.repo) == os.path.realpath(REPO) else os.path.join(ctx.repo, ".ttv-evidence")
     vio_dir = os.path.join(ev_dir, "violations", prop)
     os.makedirs(vio_dir, exist_ok=True)
     for f in os.listdir(vio_dir):
